@@ -99,7 +99,7 @@ func init() {
 		Rules: []string{"P0", "D2", "D3", "D6"},
 		Explanation: "Decides only the matcher-dispatch necessary conditions of C17: (D6) the Prometheus matcher-type → operator mapping is total and injective over labels.MatchType and yields exactly =, !=, =~, !~ in that pairing; " +
 			"(D2/D3) the selector translators shared by PromQL and Pyroscope (stream-select bitmask planner, prof/transpiler getMatcherClause, promql transpiler) dispatch those four operators to pairwise different predicates, complementary ones differing on every leaf.",
-		NotCovered:  "Series grouping, sample ordering, the seek/next cursor contract and PromQL evaluation — these are behaviours over data and call sequences.",
+		NotCovered:  "Series grouping, sample ordering, the seek/next cursor contract beyond the one structural clause of D15 (the bisection result is a bound) — e.g. that the bounds are moved correctly, or that Seek never moves backwards — and PromQL evaluation: these are behaviours over data and call sequences.",
 		Assumptions: []string{commonAssume},
 		Filter: keepIf(func(rule, key string) bool {
 			return rule == "P0" || rule == "D6" || hasAny(key, "reader/promql/", "reader/prof/transpiler", "(*StreamSelectPlanner)", "(*SimpleLabelFilterPlanner)")
@@ -309,6 +309,11 @@ func init() {
 	addScoped("C11", "D10", in("reader/traceql/"), d10)
 	addScoped("C11", "D12", in("reader/traceql"), "(D12) positions read from the term interning table and positions derived from the term list length are stored into plan nodes with one base.")
 	addScoped("C11", "D11", in("reader/traceql/"), "(D11) an attribute aggregate's operand rows are kept by an unconditional `key == attr` alternative of the scan filter, for the same attribute.")
+	addScoped("C11", "D13", in("reader/traceql/"), "(D13) a comparison over a defaulting cast (`toFloat64OrZero(val)`, 0 for values that do not parse) is only ever a conjunct next to the parse test `isNotNull(toFloat64OrNull(val))` of the same expression, so attributes that are not numbers never satisfy a numeric term.")
+	addScoped("C07", "D14", in("reader/logql/"), "(D14) the recursive collector of regexp group names visits every kind of group in the same order (own name before the groups nested in it), the order in which the regexp engine numbers the groups the names are zipped with.")
+	addScoped("C17", "D15", in("reader/"), "(D15) the series cursor's bisection leaves its result in a bound, never in the last probe: seeking to t lands on the first sample at or after t, or reports the end.")
+	addScoped("C11", "D16", in(""), "(D16) the chain planner continues its recursion in the node it just added (the last operand), never in operand 0 of a list it appended to, so every selector of `{A} && {B} && {C} …` reaches the statement.")
+	addScoped("C15", "I2", in(""), "(I2) bytes rendered by a JSON encoder are written whole, never cut (an encoded batch unwrapped by slicing off its brackets is `ul` for a nil batch and a dangling comma for an empty one).")
 	o4 := "(O4) the arrays of a chunk that was handed to the insert path by a channel send are never re-sliced into the next chunk."
 	addScoped("C03", "O4", in(""), o4)
 	addScoped("C02", "O4", in(""), o4)
